@@ -48,7 +48,7 @@ func emptyAlt() SAlt         { return SAlt{Empty: true} }
 func errAlt(syms ...Sym) SAlt { return SAlt{Err: true, Body: syms} }
 
 // Families is the list of template families GenSyntax knows.
-var Families = []string{"expr", "list", "stmts", "brackets", "random", "lr1notlalr", "nullable", "long", "random", "random", "nulllist", "nulllist", "nulltails", "lr2", "wide", "firstchain", "errorder"}
+var Families = []string{"expr", "list", "stmts", "brackets", "random", "lr1notlalr", "nullable", "long", "random", "random", "nulllist", "nulllist", "nulltails", "lr2", "wide", "firstchain", "errorder", "optafter"}
 
 // BoundaryFamilies are shapes near the LR(1) boundary (used on top of Families by C04).
 var BoundaryFamilies = []string{"lr1notlalr", "cyclic", "rr1la", "nullconflict", "nullable", "random", "expr", "nulltails", "nulllist", "lr2"}
@@ -86,6 +86,8 @@ func GenSyntax(r *rand.Rand, o SynGenOpts) *Grammar {
 		g = s.firstChain()
 	case "errorder":
 		g = s.errOrder()
+	case "optafter":
+		g = s.optAfter()
 	case "wide":
 		g = s.wide()
 	case "cyclic":
@@ -335,6 +337,29 @@ func (s *synGen) firstChain() *Grammar {
 	return g
 }
 
+// optAfter: a nullable nonterminal directly after a nonterminal whose body has two or more
+// symbols (what the parser popped last is still lying above the stack top when the empty
+// alternative is reduced), also in the middle and at the end of bodies and inside lists.
+func (s *synGen) optAfter() *Grammar {
+	s.pickTerminals(6)
+	t := s.terms
+	g := &Grammar{NTs: []*NTDef{
+		{Head: "S", Alts: []SAlt{alt(nt("Pair"), nt("Opt"), t[2]), alt(t[3], nt("Pair"), nt("Opt"))}},
+		{Head: "Pair", Alts: []SAlt{alt(t[0], t[1])}},
+		{Head: "Opt", Alts: []SAlt{alt(t[4]), emptyAlt()}},
+	}}
+	if s.r.Intn(2) == 0 {
+		g.NTs[1].Alts = append(g.NTs[1].Alts, alt(t[0], t[1], t[1]))
+	}
+	if s.r.Intn(2) == 0 {
+		g.NTs[0].Alts = append(g.NTs[0].Alts, alt(t[5], nt("S"), nt("Opt"), t[5]))
+	}
+	if s.r.Intn(2) == 0 {
+		g.NTs[2].Alts[0], g.NTs[2].Alts[1] = g.NTs[2].Alts[1], g.NTs[2].Alts[0]
+	}
+	return g
+}
+
 // errOrder: error alternatives followed by a nonterminal, with the nonterminals defined in an
 // order different from the order of their first mention (symbol numbering follows first
 // mention, tables follow definition order).
@@ -578,7 +603,8 @@ func (s *synGen) injectErrors(g *Grammar) {
 
 // AssignActions gives every alternative either no action or a recorder call with a random
 // selection of $i / $Ti arguments. Production numbers are those of Flat().
-// mode: 0 = random mix, 1 = recorder everywhere (all arguments), 2 = no actions at all.
+// mode: 0 = random mix, 1 = recorder everywhere (all arguments), 2 = no actions at all,
+// 3 = recorder with all arguments everywhere except on empty alternatives, which get no action.
 func AssignActions(r *rand.Rand, g *Grammar, mode int) {
 	idx := 0
 	for _, d := range g.NTs {
@@ -586,7 +612,7 @@ func AssignActions(r *rand.Rand, g *Grammar, mode int) {
 			idx++
 			a := &d.Alts[ai]
 			a.Act = Action{}
-			if mode == 2 {
+			if mode == 2 || mode == 3 && a.Empty {
 				continue
 			}
 			if mode == 0 && (r.Intn(4) == 0 || a.Empty && r.Intn(2) == 0) {
